@@ -262,6 +262,59 @@ def late_listing(item):
     return part
 
 
+def aged_listing(item):
+    """the LIST verb arrives, the data connection is made `gap` seconds later and an entry is created in between:
+    every line is dated against the time the listing is produced, so a just-created entry keeps minute precision"""
+    zone, gap, when = item
+    set_tz(zone)
+    import aioftp
+    part = report.Partial()
+    rig = Rig(tree={"dir": {"old": b"1"}}, n_sessions=2, epoch0=EPOCH, server_kwargs={"wait_future_timeout": 10000},
+              mtime=EPOCH - 3 * DAY)
+    problems = []
+    try:
+        w = rig.world
+        for i in (0, 1):
+            rig.ev(i, "@connect", advance=0)
+            rig.ev(i, "USER anonymous", advance=0)
+        rig.ev(0, "PASV", advance=0)
+        rig.ev(0, "LIST dir", advance=0)
+        w.advance_to(w.loop.time() + when)
+        rig.ev(1, "MKD /dir/fresh", advance=0)
+        created = w.wall()
+        w.advance_to(w.loop.time() + gap - when)
+        rig.ev(0, "@data", advance=0)
+        w.settle(5)
+        rig.collect()
+        s0 = rig.sessions[0]
+        raw = s0.data.received if s0.data is not None else b""
+        now = w.wall()
+        client = aioftp.Client(path_io_factory=aioftp.MemoryPathIO)
+        got = {}
+        for line in raw.split(b"\r\n"):
+            if line:
+                p_, info = client.parse_list_line(line + b"\r\n")
+                got[str(p_)] = info
+        want = expected(created, now)
+        if "fresh" not in got:
+            problems.append({"kind": "names", "via": "list", "got": sorted(got), "raw": raw.decode("latin-1")})
+        elif abs((now - created) - HALF) >= DAY and got["fresh"].get("modify") != want:
+            problems.append({"kind": "modify", "via": "list", "name": "fresh", "got": got["fresh"].get("modify"),
+                             "want": want, "line": [l for l in raw.decode("latin-1").split("\r\n") if "fresh" in l]})
+        part.evaluations += 1
+        part.traces += 1
+        part.transitions += w.net.n_events
+        k = report.fp(["aged-listing", zone, gap, when])
+        part.states.add(k)
+        part.nontrivial.add(k)
+        for p in problems[:1]:
+            part.violation({"kind": p["kind"], "via": "list", "late_data": True, "entry_created_while_waiting": True},
+                           {"problem": p, "gap": gap, "when": when}, replay={"aged": list(item)})
+    finally:
+        rig.close()
+    return part
+
+
 def faulty_listing(item):
     """one backend call of the listing fails: the client must learn that the listing failed - a listing that is
     reported complete has every entry exactly once"""
@@ -344,13 +397,15 @@ def run(tier, seed, t0):
             items.append((zone, ns[i:i + 3], tier != "quick"))
     late = [("UTC", v, a) for v in ("MLSD", "LIST") for a in ("", ".", "sub", "..")]
     faulty = [(via, k) for via in ("MLSD", "LIST") for k in range(1, 16)]
+    aged = [(zone, gap, when) for zone in ZONES for gap, when in ((90, 30), (90, 89), (3600, 1800), (700, 61), (10, 5))]
     parts = report.pmap(plane_work, items) + report.pmap(wire_case, wire_items(tier)) + report.pmap(late_listing, late) \
-        + report.pmap(faulty_listing, faulty)
+        + report.pmap(faulty_listing, faulty) + report.pmap(aged_listing, aged)
     part = report.merge_all(parts)
     set_tz("UTC")
     bounds = {"now_values": len(ns), "years": [years[0], years[-1]], "mtime_range": "now-400d .. now+3d",
               "dense_windows": "every minute within +-%s of now, now-half-year, New Year, Mar 1; stride 67 min elsewhere"
                                % ("2 d" if tier != "quick" else "6 h"),
+              "aged_listing": "LIST verb, data connection 10 s .. 1 h later, an entry created in between (both zones)",
               "faulty_listing": "4 entries, MLSD and LIST, the k-th backend call of the listing fails, k=1..15",
               "zones": ZONES, "exempt": "|(now - mtime) - half year| < 1 day",
               "wire": {"names": NAMES, "sizes": SIZES, "mtimes": len(MTIMES), "via": ["MLSD", "raw LIST", "MLST",
@@ -370,6 +425,8 @@ def replay(path):
     rp = data.get("replay") or {}
     if "faulty" in rp:
         part = faulty_listing(tuple(rp["faulty"]))
+    elif "aged" in rp:
+        part = aged_listing(tuple(rp["aged"]))
     elif "late" in rp:
         part = late_listing(tuple(rp["late"]))
     elif "wire" in rp:
